@@ -9,6 +9,7 @@ pub fn generate(kind: &str, r: &mut Rng, i: u64) -> Vec<String> {
         "link-exact" => link_exact(r, i),
         "link-burst" => link_burst(r, i),
         "link-close" => link_close(r, i),
+        "link-closecancel" => link_close_cancel(r, i),
         "link-forward" => link_forward(r, i),
         "hostile" => hostile(r, i),
         "wirepeer" => wirepeer(r, i),
@@ -990,6 +991,70 @@ fn wirepeer(r: &mut Rng, _i: u64) -> Vec<String> {
 /// C11 at port level (exact mode): a stream of messages with a close / receiver drop / sender drop
 /// at a random position (also inside a chunked message), followed by further sends, the receiver
 /// draining until end-of-stream or until nothing is left.
+/// C11: a `close()` of the receiving half that waits for space in the event queue behind a stalled sink is
+/// cancelled there; the application then calls `close()` again.  The second call must still reach the sender:
+/// with all wires open again the sender must be closed and a new send must fail (predicates only: both
+/// directions carry data and the sink is stalled).
+fn link_close_cancel(r: &mut Rng, _i: u64) -> Vec<String> {
+    let mut c = gen_cfg(r);
+    let s = r.below(2) as usize;
+    let (sn, rn) = if s == 0 { ("A", "B") } else { ("B", "A") };
+    // minimal queues on the closing side so that a few sends fill them; enough credit for these sends
+    c.sq[1 - s] = 1;
+    c.tq[1 - s] = 1;
+    c.buf[s] = c.buf[s].max(8);
+    let mut l = vec!["mode monitor".to_string()];
+    l.extend(cfg_lines(&c));
+    l.push("start".into());
+    l.push(format!("connect c0 {sn} p"));
+    l.push(format!("accept a0 {rn} p"));
+    l.push("settle".into());
+    if r.bool() {
+        let n0 = r.range(1, 6) as usize;
+        l.push(format!("send s0 {sn} p {}", payload(r, n0)));
+        l.push("settle".into());
+        l.push(format!("recvmsg r0 {rn} p"));
+        l.push("settle".into());
+    }
+    l.push(format!("window {rn} 0"));
+    let fill = r.range(4, 6);
+    for j in 0..fill {
+        l.push(format!("send f{j} {rn} p {:02x}", j + 1));
+    }
+    l.push("settle".into());
+    l.push(format!("close cl {rn} p"));
+    l.push("settle".into());
+    l.push("cancel cl".into());
+    l.push("settle".into());
+    l.push(format!("window {rn} inf"));
+    l.push("settle".into());
+    if r.chance(1, 3) {
+        // (a third attempt, cancelled at once)
+        l.push(format!("close clb {rn} p"));
+        l.push("cancel clb".into());
+        l.push("settle".into());
+    }
+    l.push(format!("close cl2 {rn} p"));
+    l.push("settle".into());
+    l.push("settle".into());
+    l.push(format!("isclosed q1 {sn} p"));
+    l.push("settle".into());
+    l.push(format!("send sx {sn} p 0a0b"));
+    l.push("settle".into());
+    for j in 0..fill {
+        l.push(format!("recvmsg g{j} {sn} p"));
+        l.push("settle".into());
+    }
+    l.push(format!("cancelcalls {rn} p tx"));
+    l.push(format!("cancelcalls {sn} p rx"));
+    l.push(format!("cancelcalls {sn} p tx"));
+    l.push("settle".into());
+    l.push("dropall".into());
+    l.push("settle".into());
+    l.push("end".into());
+    l
+}
+
 fn link_close(r: &mut Rng, _i: u64) -> Vec<String> {
     let c = gen_cfg(r);
     let s = r.below(2) as usize;
